@@ -25,19 +25,20 @@ fn any_order() -> ([i8; 4], usize) {
     }
     (o, len)
 }
-fn store(o: &[i8; 4], len: usize) {
+fn store(o: &[i8; 4], len: usize) -> ParsedParameters {
+    let mut p = bare_params("axisswap");
     let v = [o[0] as f64, o[1] as f64, o[2] as f64, o[3] as f64];
-    t_series("order", &v[..len]);
+    t_series(&mut p, "order", &v[..len]);
+    p
 }
 
-//@h {"id":"C11.K.axisswap.fwd","props":["C11","C10","C09"],"tier":"quick","kind":"complete","replay":"none","timeout":900,"text":"axisswap fwd for every signed partial permutation of 1..4 axes on the probe tuple: out[i] = sgn_i * in[|o_i|-1] for i < len, other axes bit-identical, returns n"}
+//@h {"id":"C11.K.axisswap.fwd","props":["C11","C10","C09"],"tier":"quick","kind":"complete","timeout":900,"text":"axisswap fwd for every signed partial permutation of 1..4 axes on the probe tuple: out[i] = sgn_i * in[|o_i|-1] for i < len, other axes bit-identical, returns n"}
 #[kani::proof]
 #[kani::unwind(9)]
 #[kani::stub(crate::op::ParsedParameters::series, stub_series)]
 fn c11_axisswap_fwd() {
     let (o, len) = any_order();
-    store(&o, len);
-    let op = bare_op(bare_params("axisswap"), InnerOp(fwd), Some(InnerOp(inv)), false);
+    let op = bare_op(store(&o, len), InnerOp(fwd), Some(InnerOp(inv)), false);
     let mut data = [Coor4D(PROBE)];
     let r = fwd(&op, &NoCtx, &mut data);
     assert!(r == 1, "C11.K.axisswap.fwd.count: every tuple counted");
@@ -53,14 +54,13 @@ fn c11_axisswap_fwd() {
     kani::cover!(len == 4 && o[0] == -4, "four-axis signed permutation reachable");
 }
 
-//@h {"id":"C11.K.axisswap.inv","props":["C11","C01","C09"],"tier":"quick","kind":"complete","replay":"none","timeout":900,"text":"axisswap inv is the exact reverse: inv(fwd(x)) == x and fwd(inv(x)) == x bitwise for every signed partial permutation (probe tuple)"}
+//@h {"id":"C11.K.axisswap.inv","props":["C11","C01","C09"],"tier":"quick","kind":"complete","timeout":900,"text":"axisswap inv is the exact reverse: inv(fwd(x)) == x and fwd(inv(x)) == x bitwise for every signed partial permutation (probe tuple)"}
 #[kani::proof]
 #[kani::unwind(9)]
 #[kani::stub(crate::op::ParsedParameters::series, stub_series)]
 fn c11_axisswap_inv() {
     let (o, len) = any_order();
-    store(&o, len);
-    let op = bare_op(bare_params("axisswap"), InnerOp(fwd), Some(InnerOp(inv)), false);
+    let op = bare_op(store(&o, len), InnerOp(fwd), Some(InnerOp(inv)), false);
     let mut data = [Coor4D(PROBE)];
     let r1 = fwd(&op, &NoCtx, &mut data);
     let r2 = inv(&op, &NoCtx, &mut data);
@@ -76,7 +76,7 @@ fn c11_axisswap_inv() {
     assert!(r4 == 1 && same4(&data[0], &Coor4D(PROBE)), "C01.K.axisswap.roundtrip: forward after inverse is the identity, bit for bit");
 }
 
-//@h {"id":"C11.K.axisswap.default","props":["C11","C13"],"tier":"quick","kind":"complete","replay":"none","timeout":600,"text":"axisswap without an order list is the identity in both directions for all f64 bits"}
+//@h {"id":"C11.K.axisswap.default","props":["C11","C13"],"tier":"quick","kind":"complete","timeout":600,"text":"axisswap without an order list is the identity in both directions for all f64 bits"}
 #[kani::proof]
 #[kani::unwind(9)]
 #[kani::stub(crate::op::ParsedParameters::series, stub_series)]
